@@ -5,9 +5,11 @@
    with the result of the reload action ([Fire ok]); [log] (newest first) and
    [applied] record what the reload action was called with.  A history in which
    some [Fire] is not enabled has [run] = None and is not a history.
-   PARTIAL with respect to the property: the model has "timer armed", not
+   PARTIAL with respect to the property: [step] has "timer armed", not
    durations; that an armed timer eventually fires and that the failure pattern
-   eventually stops are the fairness premises ([In (Fire true) cont]). *)
+   eventually stops are the fairness premises ([In (Fire true) cont]).  The
+   variant with deadlines ([tstep], section "deadlines" below) says from which
+   instant on the pending reload is enabled. *)
 From Coq Require Import NArith Bool List.
 From Verif Require Import Model.Debounce Proofs.DebounceP Model.FrrMgr Proofs.FrrMgrP Proofs.FrrMgrDebP.
 Import ListNotations.
@@ -259,6 +261,47 @@ Theorem C19_frr_mgr_latest_applied_inj : forall (code : frr * list bfdprof * str
   last <> None -> cfg_of gen_frr st = Some c ->
   applied sigma = Some (code c) /\ forall c', applied sigma = Some (code c') -> c' = c.
 Proof. exact frr_mgr_latest_applied_inj. Qed.
+
+(* ---- deadlines (Model/Debounce.v (1t): [tstep iv rt], iv = debounce interval, rt = retry interval; events carry
+   the instant at which the loop takes them; a [Fire] is enabled exactly from the pending deadline on) ----
+   "failed attempts are retried" / "at any rate" with durations: the retry of an attempt that failed at [now] is
+   enabled from [now + rt] on and not before, WHATEVER is submitted or re-requested in between (no stream of
+   submissions pushes it back) ... *)
+Theorem C19_retry_not_starved_by_submissions : forall iv rt s now s1 subs s2,
+  tstep iv rt s (now, Fire false) = Some s1 -> no_fire (map snd subs) = true -> trun iv rt s1 subs = Some s2 ->
+  t_deadline s2 = Some (now + rt)%N
+  /\ (forall t ok, (now + rt <= t)%N -> exists s3, tstep iv rt s2 (t, Fire ok) = Some s3)
+  /\ (forall t ok, (t < now + rt)%N -> tstep iv rt s2 (t, Fire ok) = None).
+Proof. exact retry_not_starved. Qed.
+
+(* ... and the reload owed to the first change / re-apply request of a window, taken at [now] with the timer off,
+   is enabled from [now + iv] on and not before, whatever follows it in the window (leading-edge debounce) *)
+Theorem C19_debounce_not_postponed : forall iv rt s now e s1 subs s2,
+  timer (t_st s) = false -> is_fire e = false -> tstep iv rt s (now, e) = Some s1 -> timer (t_st s1) = true ->
+  no_fire (map snd subs) = true -> trun iv rt s1 subs = Some s2 ->
+  t_deadline s2 = Some (now + iv)%N
+  /\ (forall t ok, (now + iv <= t)%N -> exists s3, tstep iv rt s2 (t, Fire ok) = Some s3)
+  /\ (forall t ok, (t < now + iv)%N -> tstep iv rt s2 (t, Fire ok) = None).
+Proof. exact debounce_not_postponed. Qed.
+
+(* the timed model is the model above with instants added: forgetting them gives a run of [step], and every run of
+   [step] has a timing (the deadlines exclude no history, so every theorem above speaks about timed histories too) *)
+Theorem C19_timed_refines : forall iv rt l s,
+  trun iv rt tinit l = Some s -> run init (map snd l) = Some (t_st s).
+Proof. exact timed_refines. Qed.
+
+Theorem C19_timed_total : forall iv rt l u, run init l = Some u ->
+  exists tl s', map snd tl = l /\ trun iv rt tinit tl = Some s' /\ t_st s' = u.
+Proof. exact timed_total. Qed.
+
+(* a failed attempt at 30 (retry interval 50): submissions at 31..33 leave the retry at 80; a reload at 79 is not
+   enabled, at 80 it is *)
+Example C19_retry_deadline_example :
+  let l := [(0, Submit 1); (30, Fire false); (31, Submit 2); (32, ReapplyOld); (33, Submit 3)]%N in
+  option_map t_deadline (trun 30 50 tinit l) = Some (Some 80%N)
+  /\ trun 30 50 tinit (l ++ [(79%N, Fire true)])%list = None
+  /\ option_map (fun s => applied (t_st s)) (trun 30 50 tinit (l ++ [(80%N, Fire true)])%list) = Some (Some 3%N).
+Proof. vm_compute. auto. Qed.
 
 (* validateReload asks for a re-apply exactly on a new time stamp with status "failure" (= 1) *)
 Theorem C19_validate_reload : forall fields prev,
